@@ -905,7 +905,8 @@ impl ProtocolState {
                         }
                     }
                     _ => {
-                        self.complete_operation_as_failure(id, GneissError::new_connection_closed("internal operation failed on connection close"))?;
+                        // failing a user DISCONNECT reports UserInitiatedDisconnect; the connection is going away regardless
+                        let _ = self.complete_operation_as_failure(id, GneissError::new_connection_closed("internal operation failed on connection close"));
                     }
                 }
             }
@@ -1080,6 +1081,12 @@ impl ProtocolState {
         result = fold_mqtt_result(result, self.complete_operation_sequence_as_failure(rejected_user.into_iter(), generate_offline_queue_policy_failed_error));
 
         self.user_operation_queue.append(&mut retained_user);
+
+        // a user DISCONNECT that was still queued, partially written or unflushed fails with
+        // UserInitiatedDisconnect; that is not a failure of the close itself
+        if let Err(GneissError::UserInitiatedDisconnect(_)) = &result {
+            return Ok(());
+        }
 
         result
     }
